@@ -28,6 +28,9 @@ QUICK = [
     _k('coarse_contract', opt='coarse', kind='contract', T=4),
     _k('coarse_contract_spread', opt='coarse', kind='contract', T=4, ec=True),
     _k('coarse_contract_win_unaligned', opt='coarse', kind='contract', T=5, win=(1, 5)),
+    _k('coarse_contract_discounted', opt='coarse', kind='contract', T=4, ec=True, wacc=True, freq='d', coarse='2d'),
+    _k('coarse_transport_discounted', opt='coarse', kind='transport', T=4, eff=0.5, costs=True, wacc=True, freq='d', coarse='2d'),
+    _k('coarse_storage_discounted', opt='coarse', kind='storage', T=4, eff=0.75, wacc=True, freq='d', coarse='2d'),
     _k('coarse_contract_ends_inside_unaligned', opt='coarse', kind='contract', T=6, win=(1, 4), ec=True),
     _k('coarse_transport_ends_inside_unaligned', opt='coarse', kind='transport', T=6, win=(0, 3), eff=0.5),
     _k('coarse_contract_straddles_start', opt='coarse', kind='contract', T=4, win=(-1, 5)),
@@ -60,10 +63,11 @@ THOROUGH = QUICK + [
 ]
 BOUNDS = dict(quick='%s; hourly (30-min) grids, T<=8, coarse 2h/3h, period 2h, duration 4h; wacc = 0' % [c[0] for c in QUICK],
               thorough='%s' % [c[0] for c in THOROUGH])
-OUTSIDE = ['wacc != 0 with coarse frequency (the coarse asset discounts a whole interval with its first minor step\'s factor)',
+OUTSIDE = [
            'holding cost (cost_store) of a coarse storage (level is only tracked at coarse interval ends)',
            'anchored frequencies (W, MS) for coarse grids', 'irregular fine steps (C12)']
-ASSUMPTIONS = ['prices of a coarse interval are the plain mean over its minor steps ("as documented"; equals the dt-weighted mean on uniform grids) -- the reference prices the coarse asset that way',
+ASSUMPTIONS = ['with a discount rate, a coarse interval is discounted with the factor of its first minor step (what contract, transport and storage all do; proven for the three classes)',
+               'prices of a coarse interval are the plain mean over its minor steps ("as documented"; equals the dt-weighted mean on uniform grids) -- the reference prices the coarse asset that way',
                'bounds of merged periodic variables are the group mean (pinned by test_periodic_contract_max_capa)']
 
 
@@ -95,7 +99,7 @@ def mk_asset(D, kind, T, tg, nA, nB, opt_kw, ec=False, eff=None, win=None, costs
     raise KeyError(kind)
 
 
-def build_pair(D, opt, kind, T, freq='h', coarse='2h', period='2h', duration=None, **kw):
+def build_pair(D, opt, kind, T, freq='h', coarse='2h', period='2h', duration=None, wacc=False, **kw):
     eao = lift.import_eao()
     tg = shapes.grid(T, freq)
     nA, nB = shapes.nodes('A', 'B')
@@ -111,6 +115,9 @@ def build_pair(D, opt, kind, T, freq='h', coarse='2h', period='2h', duration=Non
         if kind in ('transport', 'multicommodity'):
             assets.append(shapes.mk_market(D, 'mB', nB, T, 'q'))
         return eao.portfolio.Portfolio(assets)
+    if wacc:
+        # the option asset is discounted (symbolic rate); its fine twin is NOT: the reference applies the convention explicitly
+        opt_kw = dict(opt_kw, wacc=D('wacc', lo=0))
     return pf(opt_kw), pf({}), tg, prices
 
 
@@ -262,6 +269,15 @@ def run_case(case_id, tier, seed, opt, kind, T, **kw):
             newc = list(Pf.c)
             for i, idx in coarse_groups(Pf, groups).items():
                 newc[i] = z3.Sum([Pf.c[j] for j in idx]) / len(idx)
+            if kw.get('wacc'):
+                # convention shared by all asset classes: a coarse interval is discounted with the factor of its FIRST minor step
+                from .. import refmodel, refmap as _rm
+                el = _rm.grid_facts(tg)[3]
+                fkeys = Pf.var_keys()
+                for i in range(Pf.n):
+                    if fkeys[i][0] == 'as':
+                        g0 = groups[group_of[fkeys[i][2]]][0]
+                        newc[i] = newc[i] * refmodel.discount(zl(a_opt.wacc), el[g0])
             Pf.c = newc
         embed_lp.embed(rec, P + '/option2fine', base, Po, x, Pf, M1.apply_sym(x), rel='==', info=dict(kind='emb', dir='option2fine'))
         # ---------- fine + equalities -> option
@@ -344,6 +360,14 @@ def observe(case, kwargs, env, rq):
             c1 = c0.copy()
             for i, idx in coarse_groups(Pf, groups).items():
                 c1[i] = float(np.mean(c0[idx]))
+            if kw.get('wacc'):
+                from .. import refmap as _rm
+                el = _rm.grid_facts(tg)[3]
+                w_ = float(a_opt.wacc)
+                for i in range(Pf.n):
+                    if fkeys[i][0] == 'as':
+                        g0 = groups[group_of[fkeys[i][2]]][0]
+                        c1[i] = c1[i] * (1.0 + w_) ** (-float(el[g0]) / 365.0)
             opf.c = c1
         if rows:
             opf.A = sp.vstack((opf.A, sp.csr_matrix(np.vstack(rows))))
